@@ -262,6 +262,35 @@ func propC12(c *Ctx) {
 		})
 	}
 
+	// a params update by the authority takes effect as sent: the role-holding fields of the
+	// stored params are the request's own (an empty executor list revokes every executor)
+	c.Rule("C12.R4", func() {
+		fn := handlers["opchild.UpdateParams"]
+		if fn == nil {
+			panic(anchorErr{"opchild.UpdateParams"})
+		}
+		o := c.Ob("C12.R4", "opchild.UpdateParams: the stored params carry the request's Admin and BridgeExecutors verbatim")
+		for _, p := range c.Paths(fn, PO{Params: hParams, Callbacks: true, NoInline: []string{".Validate", "GetAllValidators"}}) {
+			o.Paths++
+			sets := collEvents(p, len(p.Events), "Params", "Set")
+			if p.OK() && !p.Panic && len(sets) != 1 {
+				o.Fail(c.W.Pos(fn.Pos()), fmt.Sprintf("success path with %d Params.Set (want 1)", len(sets)), c.Dump(p, -1))
+			}
+			for _, i := range sets {
+				o.Sites++
+				v := strip(p.Events[i].Call.Args[2])
+				for _, f := range []string{"Admin", "BridgeExecutors"} {
+					if got := strip(project(v, f, nil)).Key(); got != "req.Params."+f {
+						o.Fail(c.evPos(&p.Events[i]), "stored "+f+" is "+trunc(got, 120)+", want req.Params."+f+" (the role change must take effect as sent)", c.Dump(p, i))
+					}
+				}
+			}
+		}
+		if o.Sites == 0 {
+			o.Fail(c.W.Pos(fn.Pos()), "no Params.Set reached", nil)
+		}
+	})
+
 	// the executor role of opchild changes hands at the plan height
 	c.Rule("C12.R4", func() { executorHandover(c, "C12.R4") })
 
